@@ -165,7 +165,7 @@ def run(ctx):
                     inplace_copies(ctx, o, f"op:{name}", wf_lines, wf_meta)
                     state_dict_roundtrip(ctx, o, f"op:{name}", wf_lines, wf_meta)
 
-    n = 250 if not ctx.thorough else 3000
+    n = 250 if not ctx.thorough else 8000
     lines, impl_tok, meta, spec_lines, spec_meta = c05.run_programs(ctx, n, collect_wf=collect)
     # the correspondence of the op results is C05's; here it ties the model's metadata to the implementation's
     c05.finish_programs(ctx, lines, impl_tok, meta, [], [], pid="C06")
@@ -173,7 +173,7 @@ def run(ctx):
     ctx.spec_failures = [(s, c) for (s, c) in ctx.spec_failures if s.startswith("C06:")]
     # ---- quantization outputs, all six qtypes
     import affine_common as ac
-    nq = 150 if not ctx.thorough else 1500
+    nq = 150 if not ctx.thorough else 4000
     for i in range(nq):
         F = rng.choice(["f32", "f16", "bf16"])
         x, axis, gs, names = ac.rand_weight(rng, F)
